@@ -41,6 +41,7 @@ def _lin(tab, x, y):
     return [r + (a - r * b) / my for a, b in zip(tab[x], tab[y])]
 
 
+@H.under_contrary_config
 def _run_case(case):
     import tea_tasting as tt
     cfg = case["cfg"]
@@ -83,6 +84,7 @@ def _zero_numerator_case(rng):
     return {"cfg": cfg, "control": control, "treatment": treatment, "zero_numerator_mean": True}
 
 
+@H.under_contrary_config
 def _run_zero(case):
     import tea_tasting as tt
     cfg = case["cfg"]
